@@ -191,7 +191,12 @@ func (d *Driver) RunReplay(path string) int {
 		db, _ := json.MarshalIndent(d.Prop.Describe(c), "", " ")
 		fmt.Printf("case %s (stratum %s index %d seed %d):\n%s\n", rf.Hash, rf.Stratum, rf.Index, rf.Seed, db)
 	}
-	if o.Guard("monitor", func() { d.Prop.Check(c, o) }) {
+	if o.Guard("monitor", func() {
+		d.Prop.Check(c, o)
+		if AfterCase != nil {
+			AfterCase(o)
+		}
+	}) {
 		o.Fail("panic:escaped", "panic escaped at %s: %s", o.PanicSite, o.PanicVal)
 	}
 	fmt.Printf("verdict: %s\n", o.Verdict())
